@@ -45,25 +45,31 @@ def do_import(src, name, prop):
 
 
 def do_test(name, checks):
+    """The seed is applied in a scratch worktree of /repo HEAD (never in /repo itself, so that background runs against /repo are
+    not disturbed); the checks are pointed at it through VERIF_REPO and write their evidence / replays to a scratch directory."""
     d = os.path.join(SEEDED, name)
     meta = json.load(open(os.path.join(d, 'meta.json')))
     if not checks:
         checks = [meta['property']]
-    st = sh('git -C /repo status --porcelain --untracked-files=no')
-    if st.stdout.strip():
-        print('refusing: /repo has uncommitted changes:\n' + st.stdout)
-        return 2
-    r = sh('git -C /repo apply %s' % os.path.join(d, 'patch.diff'))
+    wt = '/tmp/seedtest-%s' % name
+    sh('git -C /repo worktree remove --force %s' % wt)
+    shutil.rmtree(wt, ignore_errors=True)
+    r = sh('git -C /repo worktree add -q --detach %s HEAD' % wt)
     if r.returncode != 0:
-        print('patch does not apply to the current /repo:\n' + r.stdout)
-        meta['detection']['_apply'] = 'patch does not apply to HEAD %s' % sh('git -C /repo rev-parse --short HEAD').stdout.strip()
-        json.dump(meta, open(os.path.join(d, 'meta.json'), 'w'), indent=1)
-        return 2
+        print(r.stdout); return 2
     try:
+        r = sh('git -C %s apply %s' % (wt, os.path.join(d, 'patch.diff')))
+        if r.returncode != 0:
+            print('patch does not apply to the current /repo HEAD:\n' + r.stdout)
+            meta['detection']['_apply'] = 'patch does not apply to HEAD %s' % sh('git -C /repo rev-parse --short HEAD').stdout.strip()
+            json.dump(meta, open(os.path.join(d, 'meta.json'), 'w'), indent=1)
+            return 2
         head = sh('git -C /repo rev-parse --short HEAD').stdout.strip()
+        scratch = os.path.join(wt, '_verif_out')
+        env = dict(os.environ, VERIF_REPO=wt, VERIF_EVIDENCE_DIR=os.path.join(scratch, 'evidence'), VERIF_REPLAY_DIR=os.path.join(scratch, 'replays'))
         for c in checks:
             t0 = time.time()
-            r = sh('%s %s --tier quick' % (os.path.join(VERIF, 'check'), c))
+            r = sh('%s %s --tier quick' % (os.path.join(VERIF, 'check'), c), env=env)
             viol = [l for l in r.stdout.splitlines() if l.startswith('VIOLATION')]
             what = ''
             if viol:
@@ -79,7 +85,8 @@ def do_test(name, checks):
             meta['detection'][c] = res
             print('%s on %s: exit %d, %s (%.0fs) %s' % (c, name, r.returncode, 'DETECTED' if res['detected'] else 'not detected', time.time() - t0, what[:120]))
     finally:
-        sh('git -C /repo checkout -- .')
+        sh('git -C /repo worktree remove --force %s' % wt)
+        shutil.rmtree(wt, ignore_errors=True)
     json.dump(meta, open(os.path.join(d, 'meta.json'), 'w'), indent=1)
     return 0
 
